@@ -1,7 +1,7 @@
 """Fake external MSA program for the C20 check (ClustalO / MUSCLE 3 / MUSCLE 5 / MAFFT command lines).
 
 Behaviour = basename of the executable that exec'd this file (see the stubs next to it):
-  ok reorder garbage_empty garbage_ragged garbage_missing garbage_tree exit3 hang
+  ok reorder garbage_empty garbage_ragged garbage_missing garbage_length garbage_tree exit3 hang
 Environment (inherited through Popen):
   C20_GATE     path; the tool blocks until this file exists (so the harness decides when it "finishes")
   C20_LOG      path; the tool appends what it produced (JSON lines), the oracle reads it
@@ -85,11 +85,14 @@ def main():
         s = "-" * (k % 2) + s
         rows.append([name, s + "-" * (width - len(s))])
     if behaviour == "reorder":
-        rows = rows[::-1]
+        rows = rows[1:] + rows[:1]      # a rotation: not an involution for n >= 3
     if behaviour == "garbage_missing":
         rows = rows[:-1]
     if behaviour == "garbage_ragged":
         rows[0][1] += "--"
+    if behaviour == "garbage_length":
+        # equal row lengths, right headers, but row 0 has one residue more than input sequence 0
+        rows[0][1] = rows[0][1][:-1] + "A"
     if behaviour == "garbage_empty":
         text = ""
         rows = []
